@@ -14,6 +14,7 @@ import (
 	"strconv"
 	"strings"
 	"sync"
+	"sync/atomic"
 	"time"
 )
 
@@ -32,6 +33,9 @@ type Driver struct {
 	extraViol    []Violation
 	Extra        map[string]interface{} // extra evidence keys
 	start        time.Time
+
+	// cases at which the CPU watchdog fired once and that ran to their end alone in a fresh process
+	hangsNotReproduced []string
 }
 
 func (d *Driver) AddViolation(sig, msg string, c *Case) {
@@ -86,6 +90,33 @@ func classifyFatal(stderr string) (class, frame string) {
 	}
 	class = normNum(m)
 	frame = "unknown"
+	if strings.Contains(class, "goroutine stack exceeds") {
+		// a runaway recursion: the function on top when the limit was hit is a matter of chance; the one that fills the
+		// stack names the fault
+		counts := map[string]int{}
+		best := ""
+		seen := 0
+		for _, line := range strings.Split(stderr, "\n") {
+			l := strings.TrimSpace(line)
+			if !strings.HasPrefix(l, "github.com/jsightapi/") && !strings.HasPrefix(l, "github.com/lucasjones/") {
+				continue
+			}
+			if i := strings.LastIndex(l, "("); i > 0 {
+				l = l[:i]
+			}
+			l = recvClean(strings.TrimPrefix(l, "github.com/jsightapi/"))
+			counts[l]++
+			if counts[l] > counts[best] || best == "" {
+				best = l
+			}
+			if seen++; seen > 200 {
+				break
+			}
+		}
+		if best != "" {
+			return class, best
+		}
+	}
 	for _, line := range strings.Split(stderr, "\n") {
 		l := strings.TrimSpace(line)
 		if strings.HasPrefix(l, "github.com/jsightapi/") || strings.HasPrefix(l, "github.com/lucasjones/") {
@@ -110,6 +141,55 @@ func recvClean(s string) string { return recvCleanRe.ReplaceAllString(s, "$1") }
 var numRe2 = regexp.MustCompile(`0x[0-9a-fA-F]+|[0-9]+`)
 
 func normNum(s string) string { return numRe2.ReplaceAllString(s, "N") }
+
+var hangsConfirmed atomic.Int64
+
+// confirmHang runs one case alone in a fresh worker process under the same watchdog and tells whether it hangs again.
+func (d *Driver) confirmHang(bin string, args []string, shard int, key string, wall time.Duration) bool {
+	out := filepath.Join(d.WorkDir, fmt.Sprintf("confirm%d.json", shard))
+	prog := filepath.Join(d.WorkDir, fmt.Sprintf("confirm%d.progress", shard))
+	errf := filepath.Join(d.WorkDir, fmt.Sprintf("confirm%d.stderr", shard))
+	_ = os.Remove(out)
+	var cargs []string
+	for i := 0; i < len(args); i++ {
+		switch args[i] {
+		case "-out":
+			cargs = append(cargs, "-out", out)
+			i++
+		case "-progress":
+			cargs = append(cargs, "-progress", prog)
+			i++
+		case "-skipfile", "-resume":
+			i++
+		default:
+			cargs = append(cargs, args[i])
+		}
+	}
+	cargs = append(cargs, "-only", key)
+	cmd := exec.Command(bin, cargs...)
+	ef, _ := os.Create(errf)
+	defer ef.Close()
+	cmd.Stderr, cmd.Stdout = ef, ef
+	cmd.Env = append(os.Environ(), "GORACE=halt_on_error=1", "GOTRACEBACK=all")
+	if err := cmd.Start(); err != nil {
+		return true
+	}
+	done := make(chan error, 1)
+	go func() { done <- cmd.Wait() }()
+	select {
+	case err := <-done:
+		if err != nil {
+			return true
+		}
+	case <-time.After(wall):
+		_ = cmd.Process.Kill()
+		<-done
+		return true
+	}
+	var r Result
+	b, err := os.ReadFile(out)
+	return err != nil || json.Unmarshal(b, &r) != nil || !r.Done
+}
 
 // Run executes the check and returns the process exit code.
 func (d *Driver) Run() int {
@@ -214,6 +294,33 @@ func (d *Driver) Run() int {
 					cc := c
 					v.Case = &cc
 				}
+				if strings.HasPrefix(class, "VERIF-HANG") && havecase {
+					// The watchdog reads the CPU clock of the whole process (the executing goroutine, the collector's threads,
+					// spinning idle threads), in a process that has run thousands of cases on a loaded machine. Its firing alone
+					// is not a verdict: the case is run again, alone, in a fresh process under the same watchdog. Only a hang
+					// that shows again is reported; one that does not is counted and named in the evidence.
+					if d.confirmHang(bin, args, s.id, c.Key(), wall) {
+						v.Msg += " (reproduced alone in a fresh process)"
+						if hangsConfirmed.Add(1) >= 3 {
+							mu.Lock()
+							fatals = append(fatals, v)
+							mu.Unlock()
+							s.failed = "executions keep hanging: " + class
+							return
+						}
+					} else {
+						mu.Lock()
+						d.hangsNotReproduced = append(d.hangsNotReproduced, fmt.Sprintf("%s %s (%s)", c.Key(), c.Note, frame))
+						mu.Unlock()
+						s.restarts++
+						if s.restarts > 40 {
+							s.failed = "worker keeps dying: " + class
+							return
+						}
+						s.skip = append(s.skip, c.Key())
+						continue
+					}
+				}
 				mu.Lock()
 				fatals = append(fatals, v)
 				mu.Unlock()
@@ -259,6 +366,11 @@ func (d *Driver) Run() int {
 		}
 	}
 	merged.Violations = append(merged.Violations, fatals...)
+	if len(d.hangsNotReproduced) > 0 {
+		merged.Counters["watchdog_fired_not_reproduced_in_fresh_process"] = int64(len(d.hangsNotReproduced))
+		sort.Strings(d.hangsNotReproduced)
+		d.SetExtra("watchdog_fired_not_reproduced_in_fresh_process", d.hangsNotReproduced)
+	}
 	for c := range covSet {
 		merged.Coverage = append(merged.Coverage, c)
 	}
